@@ -257,10 +257,17 @@ def gen_cand_query(rng, b):
         if mates:
             tree = rng.choice(mates)
             scenario = sp
+    # the group that takes a class from the sharing provider: mostly the unsuffixed one, sometimes a suffixed one
+    scen_group = 0
+    if scenario is not None and (0 not in suffixes or rng.random() < 0.35):
+        scen_group = rng.choice(suffixes)
     for s in suffixes:
         k = rng.choice([1, 1, 2, 2, 3]) if s == 0 else rng.choice([1, 1, 1, 2])
         picked = _pick_classes(rng, b, s, k, tree)
-        if s == 0 and scenario is not None:
+        if s != 0 and s == scen_group and scenario is not None:
+            rc = rng.choice(sorted(b.st.invs[scenario]))
+            picked = [(rc, scenario)]               # a suffixed group lives on one provider: the sharing one
+        if s == 0 and s == scen_group and scenario is not None:
             rc = rng.choice(sorted(b.st.invs[scenario]))
             picked = [(rc, scenario)] + [(c, w) for c, w in picked if c != rc][:2]
             if rng.random() < 0.3:
@@ -321,7 +328,7 @@ def gen_cand_query(rng, b):
         else:
             policy = rng.choice(['absent', 'absent', 'none', 'isolate'])
     root_required, root_forbidden = [], []
-    if v >= 35 and rng.random() < 0.1:
+    if v >= 35 and rng.random() < (0.35 if scenario is not None else 0.1):
         rt = _traits_of(b, tree) if tree is not None else []
         if rng.random() < 0.6:
             root_required = [rng.choice(rt if rt and rng.random() < 0.7 else [T_AVX, T_SSD, T_CUSTOM, MISC])]
